@@ -201,27 +201,18 @@ func openIndex(c *Case) (*index, *vlib.Failure) {
 
 // outcome of one executed search
 type outcome struct {
-	ids  []string // ids of the returned hits, in order
-	keys [][][]byte
+	hits int
+	keys [][][]byte // sort keys of the hits (only when asked for)
 	aggs *search.Bucket
 }
 
+// drain consumes the iterator (AllMatches computes its aggregations while iterating).  No stored
+// fields are read: see TestProbeIceV2StoredFields.
 func drain(it search.DocumentMatchIterator, wantKeys bool) (*outcome, error) {
 	o := &outcome{}
 	m, err := it.Next()
 	for err == nil && m != nil {
-		var id string
-		err = m.VisitStoredFields(func(field string, value []byte) bool {
-			if field == "_id" {
-				id = string(value)
-				return false
-			}
-			return true
-		})
-		if err != nil {
-			return nil, err
-		}
-		o.ids = append(o.ids, id)
+		o.hits++
 		if wantKeys {
 			k := make([][]byte, len(m.SortValue))
 			for i, b := range m.SortValue {
@@ -236,6 +227,26 @@ func drain(it search.DocumentMatchIterator, wantKeys bool) (*outcome, error) {
 	}
 	o.aggs = it.Aggregations()
 	return o, nil
+}
+
+// matchedIDs asks the index for the match set of a query: a search without aggregations
+// sorted by _id, the ids are the sort keys.
+func matchedIDs(ix *index, live int, q *Query) (ids []string, fail *vlib.Failure) {
+	fail = vlib.Watchdog("search-ids", callTimeout, func() *vlib.Failure {
+		it, err := ix.r.Search(context.Background(), bluge.NewTopNSearch(live+5, buildQuery(q)).SortBy([]string{"_id"}))
+		if err != nil {
+			return vlib.Failf("search-error", "id search: %v", err)
+		}
+		o, err := drain(it, true)
+		if err != nil {
+			return vlib.Failf("search-error", "id search: %v", err)
+		}
+		for _, k := range o.keys {
+			ids = append(ids, string(k[0]))
+		}
+		return nil
+	})
+	return ids, fail
 }
 
 // execute runs one (query, aggregations, setting) on the reader.  skipped is true when an
@@ -707,6 +718,20 @@ func prop(c *Case, st *stats) *vlib.Failure {
 				matched = append(matched, d)
 			}
 		}
+		// the model's evaluation of the query against the index's
+		got, f := matchedIDs(ix, len(live), &rq.Q)
+		if f != nil {
+			return f
+		}
+		want := make([]string, len(matched))
+		for i, d := range matched {
+			want[i] = d.ID
+		}
+		sort.Strings(want)
+		sort.Strings(got)
+		if strings.Join(got, ",") != strings.Join(want, ",") {
+			return vlib.Failf("match-set", "request %d: the index matches ids %v, the model's evaluation of the query gives %v", ri, got, want)
+		}
 		fields := distinctFields(rq.Aggs)
 		lacks := false
 		for _, d := range matched {
@@ -782,28 +807,19 @@ func prop(c *Case, st *stats) *vlib.Failure {
 				st.nontrivial++
 			}
 			st.execs = append(st.execs, execRec{fmt.Sprintf("%d/%d", ri, si), nt})
-			// AllMatches returns every match: the match set itself
-			if s.Kind == "all" {
-				got := append([]string(nil), o.ids...)
-				sort.Strings(got)
-				want := make([]string, len(matched))
-				for i, d := range matched {
-					want[i] = d.ID
+			if s.Kind == "all" || s.Kind == "topn" {
+				wantHits := len(matched)
+				if s.Kind == "topn" {
+					wantHits -= s.From
+					if wantHits < 0 {
+						wantHits = 0
+					}
+					if wantHits > s.N {
+						wantHits = s.N
+					}
 				}
-				sort.Strings(want)
-				if strings.Join(got, ",") != strings.Join(want, ",") {
-					return vlib.Failf("match-set", "request %d: AllMatches returned ids %v, the model's evaluation of the query gives %v", ri, got, want)
-				}
-			} else if s.Kind == "topn" {
-				wantHits := len(matched) - s.From
-				if wantHits < 0 {
-					wantHits = 0
-				}
-				if wantHits > s.N {
-					wantHits = s.N
-				}
-				if len(o.ids) != wantHits {
-					return vlib.Failf("page-size", "request %d setting %d: %d hits returned for n=%d from=%d and %d matches", ri, si, len(o.ids), s.N, s.From, len(matched))
+				if o.hits != wantHits {
+					return vlib.Failf("page-size", "request %d setting %d (%s): %d hits returned, %d matches", ri, si, vlib.Canon(s), o.hits, len(matched))
 				}
 			}
 			if o.aggs == nil {
